@@ -369,6 +369,13 @@ func (r *Runtime) checkHostObjectPropertyDescr(name unistring.String, descr Prop
 func (o *objectGoReflect) defineOwnPropertyStr(name unistring.String, descr PropertyDescriptor, throw bool) bool {
 	if o.val.runtime.checkHostObjectPropertyDescr(name, descr, throw) {
 		n := name.String()
+		if descr.Value == nil {
+			// a descriptor without [[Value]] leaves an existing field alone
+			if o._has(n) {
+				return true
+			}
+			descr.Value = _undefined
+		}
 		if has, ok := o._put(n, descr.Value, throw); !has {
 			o.val.runtime.typeErrorResult(throw, "Cannot define property '%s' on a host object", n)
 			return false
